@@ -152,6 +152,10 @@ def specAnswer (st : DState) (toks : List String) : Option (DState × List Strin
     match k.toNat?, (pLP st.cx).run' rest with
     | some k, some L => if k < 16 then some ({ st with slots := st.slots.set! k (some (specOfLP L)) }, ["ok"]) else some (st, ["bad-op"])
     | _, _ => some (st, ["bad-op"])
+  | "newcg" :: k :: rest =>       -- same problem, built rows-first / columns-later on the C side
+    match k.toNat?, (pLP st.cx).run' rest with
+    | some k, some L => if k < 16 then some ({ st with slots := st.slots.set! k (some (specOfLP L)) }, ["ok"]) else some (st, ["bad-op"])
+    | _, _ => some (st, ["bad-op"])
   | ["free", k] =>
     match k.toNat? with
     | some k => if k < 16 then some ({ st with slots := st.slots.set! k none }, ["ok"]) else some (st, ["bad-op"])
@@ -287,7 +291,8 @@ def answer (cx : Ctx) (toks : List String) : Ctx × List String :=
       | ["loadbasis"] => some .loadBasis
       | ["optprimal", st, f] => st.toNat?.map fun n => .optPrimal n (f == "1")
       | ["optdual", st, f] => st.toNat?.map fun n => .optDual n (f == "1")
-      | ["exact", st, f] => st.toNat?.map fun n => .exactSolver n (f == "1")
+      | ["exact", st, f] => st.toNat?.map fun n => .exactSolver n (f == "1") false false
+      | ["exact", st, f, b, k] => st.toNat?.map fun n => .exactSolver n (f == "1") (b == "1") (k == "1")
       | ["failed"] => some .failedCall
       | _ => none
     -- optional first token init:<basis>:<cache>:<factorok>:<qstatus> (state in which the history starts)
